@@ -293,9 +293,16 @@ pub(crate) fn transform_text(text: &str) -> String {
         .join(" ")
 }
 
-/// A pragma is emitted as the callee as it is written,
-/// so it must be an identifier or identifiers joined by dots (`h`, `React.createElement`).
+/// A pragma is emitted as the callee as it is written, so it must be an identifier or a member
+/// chain (`h`, `React.createElement`, `this.h`, `h.default`): the object is a binding identifier
+/// or `this`, the properties are identifier names (reserved words included).
 pub(crate) fn is_valid_pragma(name: &str) -> bool {
-    name.split('.')
-        .all(|part| Ident::verify_symbol(part).is_ok())
+    let mut parts = name.split('.');
+    parts
+        .next()
+        .is_some_and(|object| object == "this" || Ident::verify_symbol(object).is_ok())
+        && parts.all(|property| {
+            let mut chars = property.chars();
+            chars.next().is_some_and(Ident::is_valid_start) && chars.all(Ident::is_valid_continue)
+        })
 }
